@@ -27,11 +27,13 @@ CONFIG = {
             "exactly what the model's writer makes of its content (chunk boundaries, ExpectingMoreEntries). Every case non-trivial except honest files with < 2 records; "
             "distinct = distinct case lines.",
     "exhaustive": {"quick": False, "thorough": False},
-    "explanation": "theorems (every section list, hash function, decoder, leaf builder): C16_accessor_invariant and C16_accepted_binds_state for the accessor with "
-                   "fixes/C16.patch -- whatever is accepted under the producer's label stages the producer's accounts / resources / totals and its boxes up to the "
-                   "key||value ambiguity of C15, the absence of hash collisions being explicit premises; C16_tamper_rejected_refuted for the accessor as it was "
-                   "(confirmed on the real code: account data replaced / account added under the honest label). restore(write world) = world has NO general theorem: "
-                   "it is proved on an example and compared with the real writer + accessor on every generated file (incl. accounts spanning chunks).",
+    "explanation": "theorems (every section list, hash function, decoder, leaf builder): C16_restore_write_file -- for every well-formed world, file version V6..V8 and "
+                   "EVERY chunking the writer produces (account / resource budgets >= 1, accounts spanning chunks through ExpectingMoreEntries, exactly filled chunks, "
+                   "KV / online chunks) both accessors accept the writer's file under the producer's label and adopt exactly that world (induction over the chunk list; "
+                   "C16_writer_chunks_well_formed: the stream never ends inside an account); C16_accessor_invariant, C16_accepted_binds_state and "
+                   "C16_tamper_evidence_write_file for the repaired accessor -- whatever is accepted under the producer's label stages the producer's accounts / resources / "
+                   "totals and its boxes up to the key||value ambiguity of C15, the absence of hash collisions being explicit premises; C16_tamper_rejected_refuted for the "
+                   "accessor as it was (confirmed on the real code, repaired by the fix: commit). The model's writer is compared with the real one on every generated file.",
     "assumptions": [
         "premises of C16_accepted_binds_state: equal labels have equal components (C15_label_inj + the base32 / decimal rendering, tested byte-exact by C15); equal trie "
         "roots hold equal hash sets (Merkle hashing over the canonical trie of C17); account / resource leaves injective, kinds separated, KV leaves equal => key||value "
@@ -49,6 +51,6 @@ CONFIG = {
         "coq/model/CatchpointHash.v",
         "not modelled: tar / gzip / snappy, msgpack decoding and allocbounds (C41), V5 files, the SQL of ApplyCatchpointStagingBalances (staging tables = the ledger), "
         "creatables table, the catchup service's network fetch and block download, progress counters",
-        "tested only: restore(write world) = world; independence of the resources-per-chunk budget and of the MemoryConfig",
+        "tested only: that the real writer cuts chunks where the model's write_file does (chunk boundaries and flags compared on every honest file); independence of the MemoryConfig",
     ],
 }
